@@ -48,6 +48,8 @@ def gen_session(rng, tier, i):
     if source == "api" and rng.random() < 0.15:
         # a tree that is a single token: one lexicon occurrence, no rule
         tb.insert(rng.randrange(len(tb) + 1), model.token_tree(rng, k, sid=900))
+    if source == "api" and rng.random() < 0.03:
+        tb = [model.token_tree(rng, k, sid=j + 1) for j in range(rng.choice([0, 1, 2]))]
     trans = []
     if rng.random() < 0.3 and not any(isinstance(x["root"], int) for x in tb):
         # in-process transformations between reading and extraction: the grammar must be
